@@ -201,12 +201,15 @@ func mergeNetworks(c any, o any, path tree.Path) (any, error) {
 	return mergeMappings(right, left, path)
 }
 
-func mergeExtraHosts(c any, o any, _ tree.Path) (any, error) {
+func mergeExtraHosts(c any, o any, p tree.Path) (any, error) {
 	right := convertIntoSequence(c)
 	left := convertIntoSequence(o)
 	// Rewrite content of left slice to remove duplicate elements
 	i := 0
 	for _, v := range left {
+		if _, ok := v.(string); !ok {
+			return nil, fmt.Errorf("%s must be a mapping or a list of strings", p)
+		}
 		if !slices.Contains(right, v) {
 			left[i] = v
 			i++
